@@ -104,7 +104,17 @@ func genC09(t *rapid.T) c09Case {
 			// embedded Rego adding a result of its own that does not start from a node of the target class (a
 			// statement about the document as a whole): both routes must evaluate it, whatever the data holds
 			lvl := prof.Validations[0].Level
-			text += "rego_extensions: |\n  " + lvl + "[matches] {\n    found := [x | target_class[x] with data.class as \"http://ex.org/v#NeverDeclared\"]\n    count(found) == 0\n" +
+			// the condition looks at the document as a whole, in one of several hand-written ways: no instance of a
+			// class, the class not even mentioned among the document's classes, the number of classes or of nodes
+			cond := pick(t, []string{
+				"found := [x | target_class[x] with data.class as \"http://ex.org/v#NeverDeclared\"]\n    count(found) == 0",
+				"object.get(input[\"@types\"], \"http://ex.org/v#Other\", null) == null",
+				"not input[\"@types\"][\"http://ex.org/v#Test\"]",
+				"count(input[\"@types\"]) < 2",
+				"count(input[\"@ids\"]) < 3",
+				"classes := {c | input[\"@types\"][c]}\n    not classes[\"http://ex.org/v#Other\"]",
+			}, "documentCondition")
+			text += "rego_extensions: |\n  " + lvl + "[matches] {\n    " + cond + "\n" +
 				"    matches := error(\"" + prof.Validations[0].Name + "\", {\"@id\": \"http://ex.org/document\"}, \"the document declares nothing\", [trace(\"declared\", \"http://ex.org/v#NeverDeclared\", {\"@id\": \"http://ex.org/document\"}, {\"negated\": false})])\n  }\n"
 		}
 		c.Profiles = append(c.Profiles, text)
